@@ -1087,6 +1087,103 @@ def ct_worker(shards):
 
 
 # ---------------------------------------------------------------------------
+# one cipher object, every history of encrypt()/decrypt() calls
+# ---------------------------------------------------------------------------
+def _const_rand(n):
+    return (b"\x55\xaa\x33\xcc\x0f\xf0\x5a\xa5" * (n // 8 + 1))[:n]
+
+
+REUSE_SCHEMES = (("v15", None), ("oaep", [None, None, None, False]), ("oaep", ["sha256", "sha1", b"L", True]),
+                 ("oaep", ["md5", None, b"", False]))
+
+
+def _reuse_setup(kd, scheme, cfg):
+    """-> (factory, ops): ops = [(name, fn(obj) -> value)] ; ciphertexts are made with the reference"""
+    from Crypto.Cipher import PKCS1_v1_5
+    k, n, e = kd["k"], kd["n"], kd["e"]
+    if scheme == "v15":
+        factory = lambda: PKCS1_v1_5.new(libkey(kd), randfunc=_const_rand)
+        room = k - 11
+
+        def em_of(m):
+            return b"\x00\x02" + bytes(FILL[i % 8] for i in range(k - 3 - len(m))) + b"\x00" + m
+        bad = b"\x00\x01" + bytes(FILL[i % 8] for i in range(k - 3)) + b"\x00"
+    else:
+        factory = lambda: oaep_cipher(kd, cfg, randfunc=_const_rand)
+        hn, mgfh, label = cfg_ref(cfg)
+        hl = R.hash_len(hn)
+        room = k - 2 * hl - 2
+
+        def em_of(m):
+            return R.eme_oaep_encode(m, k, seeded("c07reuse/%s" % kd["name"], hl), label, hn, mgfh)
+        bad = b"\x01" + em_of(b"x")[1:]
+    msgs = [b"", b"A", bytes(range(1, room + 1))[:room], b"\x00" * min(3, room)]
+    cts = [R.i2osp(R.rsaep(n, e, R.os2ip(em_of(m))), k) for m in msgs]
+    cts.append(R.i2osp(R.rsaep(n, e, R.os2ip(bad)), k))          # decoding failure
+    cts.append(cts[1][:-1])                                      # wrong length
+    cts.append(R.i2osp(n, k) if n < 256 ** k else b"\xff" * k)   # not below the modulus
+    ops = []
+    for i, ct in enumerate(cts):
+        if scheme == "v15":
+            ops.append(("decrypt(ct%d, sentinel)" % i, lambda o, ct=ct: o.decrypt(ct, b"SENTINEL")))
+        else:
+            ops.append(("decrypt(ct%d)" % i, lambda o, ct=ct: o.decrypt(ct)))
+    if scheme == "v15":
+        ops.append(("decrypt(ct1, sentinel, expected_pt_len=1)", lambda o: o.decrypt(cts[1], b"S", expected_pt_len=1)))
+        ops.append(("decrypt(ct2, sentinel, expected_pt_len=1)", lambda o: o.decrypt(cts[2], b"S", expected_pt_len=1)))
+    for j, m in enumerate(msgs[:3] + [bytes(room + 1)]):
+        ops.append(("encrypt(message %d, %d bytes)" % (j, len(m)), lambda o, m=m: o.encrypt(m)))
+    return factory, ops
+
+
+def _reuse_call(obj, fn, label):
+    _DET.reset(label)
+    try:
+        v = fn(obj)
+        return ("ok", bytes(v) if isinstance(v, (bytes, bytearray)) else repr(v))
+    except ValueError:
+        return ("ValueError", None)
+    except Exception as ex:  # noqa
+        return (type(ex).__name__, None)
+
+
+def reuse_history(kd, scheme, cfg, factory, ops, table, hist, acc):
+    obj = factory()
+    for n, i in enumerate(hist):
+        got = _reuse_call(obj, ops[i][1], b"reuse%d" % i)
+        acc.count("evaluations")
+        if got != table[i]:
+            acc.violation("C07/reuse/%s/%s-depends-on-earlier-calls" % (scheme, ops[i][0].split("(")[0]),
+                          "%s %s, %d-byte modulus: after %s on the same cipher object, %s gives %s; a fresh object gives %s"
+                          % (scheme, cfg_str(cfg) if cfg else "", kd["k"], [ops[j][0] for j in hist[:n]], ops[i][0],
+                             short(repr(got)), short(repr(table[i]))),
+                          {"part": "reuse", "key": pubpart(kd), "scheme": scheme, "cfg": cfg, "history": list(hist[:n + 1])}, size=n + 1)
+            return
+
+
+def reuse_worker(shards):
+    install_blinding_seam()
+    acc = Acc()
+    for kname, si, depth, first in shards:
+        kd = _KEYS[kname]
+        scheme, cfg = REUSE_SCHEMES[si]
+        factory, ops = _reuse_setup(kd, scheme, cfg)
+        table = [_reuse_call(factory(), fn, b"reuse%d" % i) for i, (_, fn) in enumerate(ops)]
+        kinds = {t[0] for t in table}
+        if kinds != {"ok", "ValueError"} or sum(1 for t in table if t[0] == "ok") < 5:
+            acc.error("reuse alphabet of %s/%s: fresh outcomes %s" % (kname, scheme, [t[0] for t in table]))
+        nh = 0
+        for d in range(1, depth + 1):
+            for rest in itertools.product(range(len(ops)), repeat=d - 1):
+                reuse_history(kd, scheme, cfg, factory, ops, table, (first,) + rest, acc)
+                nh += 1
+        acc.count("reuse_histories", nh)
+        acc.seen("classes", ("reuse", kname, scheme, cfg_str(cfg) if cfg else "", first, depth))
+        acc.seen("reuse_objects", (kname, si))
+    return acc
+
+
+# ---------------------------------------------------------------------------
 # grids
 # ---------------------------------------------------------------------------
 def oaep_configs(kname, k, quick):
@@ -1319,6 +1416,22 @@ def run(ctx):
                   "and integers {n-2,n-1,n,n+1,n+c,2^(8k)-1,2^(8k-8),0,1,2}" % len(keys))
     timed("ct", ct_worker, sh)
 
+    # ---- one cipher object reused ------------------------------------------------------------
+    sh = []
+    rdepth = 3 if q else 4
+    for kname in (("k64", "k128") if q else ("k48", "k64", "k128", "k129")):
+        for si, (scheme, cfg) in enumerate(REUSE_SCHEMES):
+            if scheme == "oaep" and keys[kname]["k"] < 2 * R.hash_len(cfg_ref(cfg)[0]) + 2 + 4:
+                continue
+            nops = len(_reuse_setup(keys[kname], scheme, cfg)[1])
+            for first in range(nops):
+                sh.append([(kname, si, rdepth, first)])
+    grid["reuse"] = ("one PKCS1_v1_5 / PKCS1_OAEP object per (key, configuration): every history of up to %d calls from {decrypt of 4 valid, "
+                     "1 undecodable, 1 wrong-length, 1 out-of-range ciphertext; v1.5 also with expected_pt_len; encrypt of 3 messages and one "
+                     "too long}; each outcome equals a fresh object's" % rdepth)
+    timed("reuse", reuse_worker, sh)
+    ctx.require(a.n.get("reuse_histories", 0) > 1000 and len(a.distinct.get("reuse_objects", ())) >= 6, "cipher-object reuse histories did not run")
+
     # ---- vacuity guards / evidence -----------------------------------------------------------
     n = a.n
     cl = a.distinct.get("classes", set())
@@ -1393,5 +1506,9 @@ def replay(case, acc):
         rt_v15_case(kd, case["msg"], case["tape"], case["mtype"], acc)
     elif part == "ct":
         ct_case(kd, case["scheme"], case["cfg"], case["ct"], acc)
+    elif part == "reuse":
+        factory, ops = _reuse_setup(kd, case["scheme"], case["cfg"])
+        table = [_reuse_call(factory(), fn, b"reuse%d" % i) for i, (_, fn) in enumerate(ops)]
+        reuse_history(kd, case["scheme"], case["cfg"], factory, ops, table, tuple(case["history"]), acc)
     else:
         acc.error("unknown replay part %r" % part)
